@@ -440,7 +440,12 @@ fn render_props(ps: &[(u32, Expr)]) -> String {
     if ps.is_empty() {
         String::new()
     } else {
-        format!(" {{{}}}", ps.iter().map(|(k, e)| format!("{}: {}", key_name(*k), render_expr(e))).collect::<Vec<_>>().join(", "))
+        // a negative number is written bare here: `{p0: (-1)}` is a non-literal value to the parser
+        let val = |e: &Expr| match e {
+            Expr::Lit(Val::Int(i)) => format!("{}", i),
+            e => render_expr(e),
+        };
+        format!(" {{{}}}", ps.iter().map(|(k, e)| format!("{}: {}", key_name(*k), val(e))).collect::<Vec<_>>().join(", "))
     }
 }
 
